@@ -66,6 +66,44 @@ Definition flow_wbs (P : program) (t : tid) : list (nat * Z) :=
   | None => []
   end.
 
+(* ------------------------------------------------------------------ well-formedness, first match wins *)
+(* PTGDefs.wf_program asks that EXACTLY one input dependency of a data flow has a true guard.  The runtime
+   only needs AT LEAST one: parsec_check_IN_dependencies_with_mask/_with_counter stop at the first dependency
+   whose guard holds and the generated data_lookup is an if / else-if chain in the same order, i.e. the
+   FIRST applicable dependency wins (`first_active`, which pred_edges and flow_src already use).  The usual
+   JDF idiom `<- (k > 0) ? A T(k-1)   <- D(0)` has overlapping guards; wf_program_fm accepts it.  Everything
+   else is as in wf_program. *)
+Definition data_inputs_fm (G L : list Z) (f : flow) : bool :=
+  if is_ctl f then
+    forallb (fun d => if d_in d then match dep_target G L d with
+                                     | Some t => match t with
+                                                 | Ttask _ _ _ => negb (Nat.eqb (length (target_tasks G L O t)) O)
+                                                 | _ => false end
+                                     | None => true end
+                      else true) (f_deps f)
+  else if has_inputs f then negb (Nat.eqb (active_inputs G L f) 0) else true.
+Definition task_ok_fm (P : program) (ids : list tid) (t : tid) : bool :=
+  match env_of P t with
+  | None => false
+  | Some (c, env) =>
+      forallb (data_inputs_fm (p_globals P) env) (c_flows c)
+      && forallb (fun e => let '(ft, p, fp) := e in
+                           PTGDefs.mem p ids && Nat.eqb (ecount (fp, t, ft) (succ_edges P p)) (ecount e (pred_edges P t)))
+                 (pred_edges P t)
+      && forallb (fun e => let '(ft, s, fs) := e in
+                           PTGDefs.mem s ids && Nat.eqb (ecount (fs, t, ft) (pred_edges P s)) (ecount e (succ_edges P t)))
+                 (succ_edges P t)
+      && forallb (fun p => PTGDefs.mem p ids && Nat.eqb (count t (succs P p)) (count p (preds P t))) (preds P t)
+      && forallb (fun s => PTGDefs.mem s ids && Nat.eqb (count t (preds P s)) (count s (succs P t))) (succs P t)
+  end.
+Definition wf_program_fm (P : program) : bool :=
+  let ids := instances P in
+  forallb class_limits (p_classes P)
+  && nodupb ids
+  && forallb (task_ok_fm P ids) ids
+  && (let o := topo_order P in
+      Nat.eqb (length o) (length ids) && forallb (fun t => PTGDefs.mem t o) ids && check_order P [] o).
+
 (* ------------------------------------------------------------------ the body *)
 Definition M64 : Z := 18446744073709551616.
 Definition M32 : Z := 4294967296.
